@@ -17,6 +17,8 @@ PURE_PREFIXES = [
     "rand::Rng::", "rand::RngCore::", "rand::TryRngCore::", "rand::SeedableRng::seed_from_u64", "rand_chacha::", "rand_core::",
     "arbitrary::Unstructured::", "arbitrary::Arbitrary::", "<", "std::intrinsics::", "std::ptr::", "std::marker::", "std::any::",
     "std::f64::", "std::panicking::", "std::process::abort",
+    # writing into an in-memory buffer / any writer is output, not a source of nondeterminism (reads are not listed)
+    "std::io::Cursor::", "std::io::cursor::", "std::io::Write::", "std::io::impls::",
 ]
 # nondeterminism sources: never allowed on a path from generate (seed present) / generate_from_arbitrary
 DENY = [
